@@ -33,6 +33,9 @@ def _run(tier, seed, replay, q):
     return builder_check("C12", tier, seed, replay, B_STRUCT | B_PANIC,
         model=("MC_Builder_%s_inv.cfg" % tier, "MC_Builder_%s_emit.cfg" % tier, 120 if q else 8),
         suites=[("model", "histories", [], True),
+                # every public method once in its legal and in an illegal situation: "a terminator closes the block"
+                # holds for EACH terminator method (appending and inserting form), not for the sampled ones only
+                ("methods", "methods", [], False),
                 ("random", "random", ["--n", "150" if q else "3000", "--len", "30" if q else "60"], False)],
         required=["Ok", "Err"],
         assumptions=BASE_ASSUMPTIONS + ["which error variant a failing call returns is not constrained (the property fixes only when calls fail)",
